@@ -344,6 +344,8 @@ impl Canon<'_> {
 // ---------------------------------------------------------------------------------------------
 
 struct EnvRun {
+    /// the environment's program right before the merge
+    before: Bytecode,
     outcome: String,
     /// the environment's program right after merging (`get_program().to_bytecode(None)`)
     merged: Bytecode,
@@ -370,10 +372,12 @@ fn run_in_env(b: &Builtins, bc: &Bytecode, history: &[Bytecode], workers: usize,
             }
         }
     }
+    let before = sim.env.get_program().to_bytecode(None);
     let pid = match qverif::catch(|| sim.env.start_process(Some(bc.clone()))) {
         Ok(Ok(pid)) => pid,
         Ok(Err(e)) => {
             return EnvRun {
+                before,
                 outcome: format!("start-error:{e:?}"),
                 merged: sim.env.get_program().to_bytecode(None),
                 entry: None,
@@ -383,6 +387,7 @@ fn run_in_env(b: &Builtins, bc: &Bytecode, history: &[Bytecode], workers: usize,
         }
         Err(p) => {
             return EnvRun {
+                before,
                 outcome: format!("start-panic:{}", p.lines().next().unwrap_or("")),
                 merged: sim.env.get_program().to_bytecode(None),
                 entry: None,
@@ -461,7 +466,7 @@ fn run_in_env(b: &Builtins, bc: &Bytecode, history: &[Bytecode], workers: usize,
         }
     };
     let faults = sim.faults.iter().map(|(i, c, m)| format!("{i}:{c}:{m}")).collect();
-    EnvRun { outcome, merged, entry, tables, faults }
+    EnvRun { before, outcome, merged, entry, tables, faults }
 }
 
 // ---------------------------------------------------------------------------------------------
@@ -804,6 +809,26 @@ fn validate(cx: &mut Ctx, a: &Bytecode, ta: &Tables, ea: usize, b: &Bytecode, tb
     ans
 }
 
+/// Translator-strength tie for the merge: the Lean port `mergeBytecode` of `Environment::merge_bytecode`
+/// must produce EXACTLY the environment's program (slots A = merged-in bytecode and B = result are loaded
+/// by `validate`; C = the environment's program before), the same entry, and remap tables that validate.
+fn merge_tie(cx: &mut Ctx, label: &str, src: &str, pair: &str, before: &Bytecode, e: usize, em: usize) {
+    let t = Tables { compat: vec![], canon: vec![], fparam: vec![], bparam: vec![] };
+    let r = cx.model.ask(&sx_prog("C", before, &t));
+    let a = if r.starts_with("ok") { cx.model.ask(&format!("(merge {e})")) } else { format!("model-parse-C:{r}") };
+    if a.starts_with("equal") && a.contains(&format!("entry={em} ")) && a.contains("validate=true") {
+        cx.ev.hit("merge:model-equals-merge_bytecode");
+    } else {
+        cx.ev.hit("merge:model-differs");
+        cx.ev.violation(
+            &format!("path=merge kind=model-differs-from-merge_bytecode what={}", a.split_whitespace().take(2).collect::<Vec<_>>().join("-")),
+            &format!("{label} [{pair}]: the Lean port of merge_bytecode does not reproduce the environment's program: {}", clip(&a)),
+            json!({"broken": "correspondence mergeBytecode (Core/Packaging/Merge.lean) <-> environment.rs merge_bytecode / import_type / import_tuple / remap_function (exact equality)", "source": src, "pair": pair, "entry": e, "real_entry": em, "model": a}),
+            false,
+        );
+    }
+}
+
 fn reject_kind(ans: &str) -> String {
     // "reject validate compat" / "reject recover function 3/2: pc 4: …" → first three words, digits dropped
     let words: Vec<&str> = ans.split_whitespace().take(3).collect();
@@ -848,6 +873,7 @@ fn packaging_case(cx: &mut Ctx, r: &mut Rng, label: &str, src: &str, p: &Bytecod
         } else {
             rep.rejections.push(("merge-fresh".into(), ans));
         }
+        merge_tie(cx, label, src, "merge-fresh", &r0.before, e, e0);
     }
     if sequential(p, e) {
         let (o, ex) = run_sync(p.clone(), cx.b, false);
@@ -957,12 +983,12 @@ fn packaging_case(cx: &mut Ctx, r: &mut Rng, label: &str, src: &str, p: &Bytecod
                 } else {
                     rep.rejections.push((format!("merge-{name}"), ans));
                 }
+                merge_tie(cx, label, src, &format!("merge-{name}"), &rm.before, be, em);
             } else {
                 rep.rejections.push((format!("merge-{name}"), format!("reject harness no-entry-or-tables {}", rm.outcome)));
             }
         }
     }
-    let _ = (label, src);
     rep
 }
 
